@@ -25,13 +25,13 @@ ASSUMPTIONS = [
     "after save_load the old module objects are stale handles that still belong to the discarded project object",
 ]
 REQUIRED_LABELS = {
-    "quick": ["gap_filled", "refused_module", "refused_pattern", "reattach_own", "attach_after_save_load", "note_mod_set", "note_mod_none", "interior_gap", "iadd_list", "attach_origin_synth_file", "attach_origin_clone", "attach_origin_clone_of_attached", "iadd_nested", "iadd_nested_into_gaps"],
+    "quick": ["gap_filled", "refused_module", "refused_pattern", "reattach_own", "attach_after_save_load", "note_mod_set", "note_mod_none", "interior_gap", "iadd_list", "attach_origin_synth_file", "attach_origin_clone", "attach_origin_clone_of_attached", "iadd_nested", "iadd_nested_into_gaps", "project_with_more_than_255_modules", "attach_origin_ctor_parent_kw"],
     "thorough": ["gap_filled", "refused_module", "refused_pattern", "reattach_own", "attach_after_save_load", "note_mod_set", "note_mod_none", "interior_gap", "iadd_list", "note_mod_unattached_refused", "attach_origin_synth_file", "attach_origin_clone", "attach_origin_clone_of_attached"],
 }
 TYPES = ["Amplifier", "Generator", "Filter", "MultiSynth", "Echo"]
 # where an unattached module comes from: constructed, loaded from a .sunsynth file, a clone of an
 # unattached module, a clone of a module that sits in some project at a position > 0
-ORIGINS = ["new", "new", "synth_file", "clone", "clone_of_attached"]
+ORIGINS = ["new", "new", "synth_file", "clone", "clone_of_attached", "ctor_parent_kw"]
 
 
 def exhaustive(tier):
@@ -40,11 +40,11 @@ def exhaustive(tier):
 
 def plan(tier):
     n, per, steps = (16, 80, 30) if tier == "quick" else (16, 800, 60)
-    return [{"kind": "random", "examples": per, "steps": steps} for _ in range(n)]
+    return [{"kind": "random", "examples": per, "steps": steps} for _ in range(n)] + [{"kind": "random", "big": True, "examples": max(6, per // 10), "steps": 12} for _ in range(2 if tier == "quick" else 6)]
 
 
 @st.composite
-def history(draw, max_steps):
+def history(draw, max_steps, big=False):
     nproj = draw(st.integers(2, 3))
     ops = []
     k = draw(st.integers(1, max_steps))
@@ -74,14 +74,20 @@ def history(draw, max_steps):
         elif kind == "blank_reload":
             op.append(draw(st.lists(sel, min_size=1, max_size=3)))
         ops.append(op)
-    return {"projects": nproj, "ops": ops}
+    h = {"projects": nproj, "ops": ops}
+    if big:
+        # project 0 already holds this many modules (positions around and above 256, 16-bit note columns)
+        h["prefill"] = draw(st.sampled_from([253, 254, 255, 256, 300]))
+    return h
 
 
 class World:
-    def __init__(self, n):
+    def __init__(self, n, prefill=0):
         from rv.api import Project
 
         self.projects = [Project() for _ in range(n)]
+        self.projects[-1].sunvox_version = (1, 9, 4, 2)  # one of the projects is written as an old-version file
+        self._prefill = prefill
         # model: per project list of uids (None = empty); uid -> module object
         self.slots = [["out%d" % i] for i in range(n)]
         self.objs = {}
@@ -91,10 +97,20 @@ class World:
         self.pats = {}
         self.uid = 0
         self.stale = []  # module objects owned by discarded project objects
+        for _ in range(prefill):
+            uid = self.new_uid()
+            self.objs[uid] = self.projects[0].new_module(build.cls_of("Amplifier"))
+            self.slots[0].append(uid)
 
-    def fresh(self, tname, origin="new"):
+    def fresh(self, tname, origin="new", for_project=None):
         from rv.api import Synth, read_sunvox_file
 
+        if origin == "ctor_parent_kw" and for_project is not None:
+            # the constructor takes the future owner as a keyword; the module is not in the list until attached
+            mod = build.cls_of(tname)(parent=for_project)
+            if any(x is mod for x in for_project.modules):
+                raise PropertyViolation("C14.ctor_parent_kw", "constructing a module with parent= already put it into the project")
+            return mod
         mod = build.cls_of(tname)()
         if origin == "synth_file":
             mod = read_sunvox_file(BytesIO(Synth(mod).read())).module
@@ -172,8 +188,10 @@ def run_history(ctx, h):
     from rv.api import Pattern, PatternClone, read_sunvox_file
     from rv.errors import ModuleOwnershipError, PatternOwnershipError
 
-    w = World(h["projects"])
+    w = World(h["projects"], h.get("prefill", 0))
     labels = set()
+    if h.get("prefill"):
+        labels.add("project_with_more_than_255_modules")
     after_reload = [False] * h["projects"]
     check_invariants(w, -1, ["init"])
     for step, op in enumerate(h["ops"]):
@@ -216,17 +234,17 @@ def run_history(ctx, h):
             if after_reload[pi]:
                 labels.add("attach_after_save_load")
         elif kind == "attach_fresh":
-            attach_new(w.fresh(op[2], op[3] if len(op) > 3 else "new"), "attach")
+            attach_new(w.fresh(op[2], op[3] if len(op) > 3 else "new", p), "attach")
             labels.add("attach_origin_" + (op[3] if len(op) > 3 else "new"))
         elif kind == "iadd_module":
-            mod = w.fresh(op[2], op[3] if len(op) > 3 else "new")
+            mod = w.fresh(op[2], op[3] if len(op) > 3 else "new", p)
             labels.add("attach_origin_" + (op[3] if len(op) > 3 else "new"))
             attach_new(mod, "iadd")
             p += mod
             if w.projects[pi] is not p:
                 raise PropertyViolation("C14.iadd.identity", "+= rebinds the project")
         elif kind == "iadd_list":
-            mods = [w.fresh(t, op[3] if len(op) > 3 else "new") for t in op[2]]
+            mods = [w.fresh(t, op[3] if len(op) > 3 else "new", p) for t in op[2]]
             labels.add("attach_origin_" + (op[3] if len(op) > 3 else "new"))
             for mod in mods:
                 attach_new(mod, "iadd")
@@ -390,7 +408,7 @@ def run_shard(ctx, desc):
         if len(h["ops"]) <= 12:
             ctx.sample(h)
 
-    run_property(ctx, history(desc["steps"]), body, desc["examples"], tag="history", bucket="history")
+    run_property(ctx, history(desc["steps"], big=desc.get("big", False)), body, desc["examples"], tag="history_big" if desc.get("big") else "history", bucket="history")
 
 
 def replay(ctx, doc):
